@@ -256,8 +256,15 @@ impl Report {
 
 /// Run `f`, turning a panic into `Err(message)`; silences the default panic hook while
 /// inside so rejection-heavy sweeps do not spam stderr.
+thread_local! {
+    static CATCH_DEPTH: std::cell::Cell<usize> = std::cell::Cell::new(0);
+}
+
 pub fn catch<T>(f: impl FnOnce() -> T) -> Result<T, String> {
-    match std::panic::catch_unwind(std::panic::AssertUnwindSafe(f)) {
+    CATCH_DEPTH.with(|d| d.set(d.get() + 1));
+    let res = std::panic::catch_unwind(std::panic::AssertUnwindSafe(f));
+    CATCH_DEPTH.with(|d| d.set(d.get() - 1));
+    match res {
         Ok(v) => Ok(v),
         Err(e) => Err(if let Some(s) = e.downcast_ref::<&str>() {
             s.to_string()
@@ -269,8 +276,14 @@ pub fn catch<T>(f: impl FnOnce() -> T) -> Result<T, String> {
     }
 }
 
+/// panics of the subject inside `catch` are data and stay silent; a panic anywhere else is the
+/// harness's own and is reported (the process then exits non-zero: a machinery failure)
 pub fn quiet_panics() {
-    std::panic::set_hook(Box::new(|_| {}));
+    std::panic::set_hook(Box::new(|info| {
+        if CATCH_DEPTH.with(|d| d.get()) == 0 {
+            eprintln!("HARNESS PANIC (outside vcommon::catch): {}", info);
+        }
+    }));
 }
 
 pub fn load_replay(path: &str) -> Value {
